@@ -137,7 +137,7 @@ def gen_case(rng, i):
         f = rng.choice(svcs)
         f["fail_after"] = rng.choice([0.0, 0.05, 0.2])
     if kind == "bad-config":
-        case["error"] = rng.choice(["syntax", "unknown-section", "unknown-tag", "ctor-error", "no-pipeline", "bad-kwarg", "missing-file", "python-tag"])
+        case["error"] = rng.choice(["syntax", "unknown-section", "unknown-tag", "ctor-error", "no-pipeline", "missing-file", "python-tag"])
         if fmt == "py":
             case["error"] = rng.choice(["syntax", "ctor-error", "missing-file", "name-error"])
     if kind == "bad-ext":
@@ -195,7 +195,7 @@ def run_child(args):
     open(evf, "w").close()
     if case.get("error") != "missing-file":
         open(cfg, "w").write(config_text(case))
-    env = dict(os.environ, VH_EVENT_FILE=evf, PYTHONPATH="%s:/repo/src" % tmp)
+    env = dict(os.environ, VH_EVENT_FILE=evf, PYTHONPATH="%s:%s/src" % (tmp, os.environ.get("VERIF_REPO", "/repo")))
     p = subprocess.Popen([sys.executable, "-m", "cobald.daemon", cfg], env=env, stdout=subprocess.PIPE, stderr=subprocess.PIPE, text=True)
     nsvc = sum(1 for e in case["elems"] if e["svc"])
     expect_up = case["kind"] == "valid"
